@@ -167,14 +167,17 @@ Proof. eapply D_seq; [apply D_lit|apply D_eol|reflexivity]. Qed.
 
 (* build a D derivation for a string already presented as nested appends *)
 Ltac dI :=
-  repeat first
-  [ eapply D_seq
-  | apply D_lit
-  | apply D_eol
-  | eapply D_grp
-  | apply D_plus
-  | apply D_rep
-  | progress cbn [D] ].
+  repeat lazymatch goal with
+  | |- D (Seq _ _) _ _ _ => eapply D_seq
+  | |- D (Lit _) _ _ _ => apply D_lit
+  | |- D Eol _ _ _ => apply D_eol
+  | |- D (Grp _) _ _ _ => eapply D_grp
+  | |- D (Plus _ _) _ _ _ => apply D_plus
+  | |- D (Rep _ _) _ _ _ => apply D_rep
+  | |- D (NGrp ?a) ?s ?r ?c => change (D a s r c)
+  end.
+
+Ltac dI' := dI; eauto; try reflexivity; try (match goal with H : D _ _ _ _ |- _ => exact H end).
 
 (* where can a keyword segment sit in a built repository path?  only in the layout suffix *)
 Lemma kw_scan_root P kw Y r SUF : hd 0 kw = 95 -> repo_ok r = true ->
